@@ -69,6 +69,8 @@ def body_expr(r, params, depth=2):
     if c == 8:
         return 'try_(%s => %s, %s)' % (r.choice(['w', 'x', p]), body_expr(r, params + ['w'], depth - 1), p)
     if c == 9:
+        if r.random() < 0.6:
+            return '[reenter(%s), %s, %s]' % (r.choice(['1', '2', p]), p, n)
         return '%s + nope_undefined' % p
     if c == 10:
         return 'reduce([1, 2, 3], (%s, acc2) => %s + acc2)' % (p, p)
@@ -107,7 +109,8 @@ def gen_program(r):
             lines.append(['%s(%s)' % (f, arg), '%s(%s, %s)' % (f, arg, r.choice(['3', 'len', 'str', '"z"'])), 'try_(%s, %s)' % (f, arg), 'hm(%s, 2)' % f, 'map([1, 2], %s)' % f,
                           'try_(%s, %s, 4)' % (f, arg), '%s()' % f, 'filter([1, 0, 2], %s)' % f, '(%s) | %s' % (arg, f), 'r%d = try_(%s, %s)' % (len(lines), f, arg)][form])
         else:
-            lines.append(r.choice(['[%s, %s]' % (r.choice(POOL), r.choice(POOL)), r.choice(POOL), 'len("abc")', 'str(5)', 'max(1, 2)', 'upper("x")']))
+            lines.append(r.choice(['[%s, %s]' % (r.choice(POOL), r.choice(POOL)), r.choice(POOL), 'len("abc")', 'str(5)', 'max(1, 2)', 'upper("x")',
+                                   'reenter(1)', 'z%d = reenter(2)' % len(lines), '[reenter(1), hv, a]']))
     return lines
 
 
@@ -233,6 +236,20 @@ def run_case(case, ctx):
     rn = dict(base, hl=list(base['hl']))
     inn = dict(base, hl=list(base['hl']))
     ref_ast = {'af': ('Lambda', (('Name', 'p0'), ('Name', 'p1')), body_tree)} if body_tree is not None else None
+    # a host callback that calls back into the evaluator (the SAME parser on the implementation side) with its own names mapping
+    INNER = ['iv = 5\n[iv, hv, a]', 'len = 7\nhv = "inner"\n[len, hv]', 'g = v => v + a\ng(1)']
+
+    def ref_reenter(k=0):
+        it = refparser.ref_parse([(t[0], t[1]) for t in reflex.tokens(INNER[int(k) % 3])])
+        out, _m = refeval.run(it, {'hv': 'inner-hv', 'a': D(100)}, 500)
+        if out[0] != 'value':
+            raise RuntimeError(out[1])
+        return out[1]
+
+    def impl_reenter(k=0):
+        return ctx.P.eval(INNER[int(k) % 3], {'hv': 'inner-hv', 'a': D(100)}, None, 500)
+    rn['reenter'] = ref_reenter
+    inn['reenter'] = impl_reenter
     ref, m = refeval.run(tree, rn, 5000, ref_ast)
     if ref[0] == 'recursion':
         return
@@ -263,7 +280,8 @@ def run_case(case, ctx):
     ctx.count('programs_run')
     detail = {'src': src, 'ast_names_body': body, 'expected': (ref[0], repr(ref[1])[:160]), 'got': (got[0], repr(got[1])[:160])}
     # (a) resolution order of every lookup
-    pushes = sum(1 for e in events if e[0] == 'push')
+    outer0 = next((e[1] for e in events if e[0] == 'push'), None)
+    pushes = sum(1 for e in events if e[0] == 'push' and e[1] == outer0)
     ctx.count('lookups_checked', sum(1 for e in events if e[0] == 'get'))
     ctx.count('lambda_scopes_pushed', max(0, pushes - 1))
     for e in events:
@@ -276,7 +294,10 @@ def run_case(case, ctx):
         if W.viol[1] is None:
             return
     d = 0
+    outer = next((e[1] for e in events if e[0] == 'push'), None)     # the scope stack of THIS eval call (a re-entrant call has its own)
     for e in events:
+        if e[1] != outer:
+            continue
         if e[0] == 'push':
             d += 1
         elif e[0] == 'pop':
@@ -297,7 +318,7 @@ def run_case(case, ctx):
             what = 'outcome class differs from the reference scoping semantics: implementation %s, reference %s' % (got[0], ref[0])
         elif got[0] == 'value' and not same(ctx, got[1], ref[1]):
             what = 'result differs from the reference scoping semantics'
-        elif not names_same(ctx, inn, rn):
+        elif not names_same(ctx, {k: v for k, v in inn.items() if k != 'reenter'}, {k: v for k, v in rn.items() if k != 'reenter'}):
             what = 'host names after the call differ (leaked parameter/local, lost top-level assignment or altered host binding)'
             detail['names_impl'] = repr({k: v for k, v in inn.items() if k not in ('try_', 'hm')})[:300]
             detail['names_ref'] = repr({k: v for k, v in rn.items() if k not in ('try_', 'hm')})[:300]
